@@ -38,7 +38,8 @@ ANCHORS = ['recursiveloader:ManifestRecursiveLoader.update_entries_for_directory
            'cli:CreateCommand.__call__']
 REQUIRED = ['recursiveloader:ManifestRecursiveLoader.save_manifests',
             'updates_completed', 'postconditions_checked', 'fresh_verifications',
-            'cli_updates', 'cli_history_steps', 'cli_histories_verified']
+            'cli_updates', 'cli_history_steps', 'cli_histories_verified',
+            'same_loader_rounds']
 ASSUMPTIONS = ['nothing is claimed when update or save raised (C10 / C18 watch that)',
                'default profile only (profiles: C19)']
 
@@ -72,11 +73,18 @@ def setup_worker(ctx):
     contracts.install_path_prefix(ctx)
 
 
-def do_update(root, opt):
-    """One update+save.  -> ('ok', None) | ('exc', exception)"""
+def do_update(root, opt, loader=None, keep=None):
+    """One update+save.  -> ('ok', None) | ('exc', exception).  With @loader the
+    given (long-lived) loader object is used; with @keep (a list) the loader
+    created here is appended to it for later rounds."""
     from gemato.recursiveloader import ManifestRecursiveLoader
     top = os.path.join(root, 'Manifest')
     try:
+        if loader is not None:
+            with walkperm.WalkPermuter(opt['wseed']):
+                loader.update_entries_for_directory(opt['scope'])
+                loader.save_manifests(force=opt['force'])
+            return ('ok', None)
         if opt['api'] == 'cli':
             from gemato import cli as gcli
             argv = ['gemato', 'create' if opt['create'] else 'update',
@@ -98,6 +106,8 @@ def do_update(root, opt):
                 top, verify_openpgp=False, hashes=list(opt['hashes']),
                 allow_create=opt['create'], sort=opt['sort'],
                 compress_watermark=opt['watermark'], compress_format=opt['format'])
+            if keep is not None:
+                keep.append(m)
             m.update_entries_for_directory(opt['scope'])
             m.save_manifests(force=opt['force'])
         return ('ok', None)
@@ -200,10 +210,10 @@ def crowded_dirs(root):
     return out
 
 
-def judge_round(ctx, root, case, rnd, opt):
+def judge_round(ctx, root, case, rnd, opt, loader=None, keep=None):
     pre = pre_state(root)
     crowded = crowded_dirs(root)
-    kind, val = do_update(root, opt)
+    kind, val = do_update(root, opt, loader=loader, keep=keep)
     if crowded:
         ctx.case(sig=('c03-crowded',), case=case, nontrivial=False, klass='crowded')
         ctx.unconstrained('several Manifest-named files in one directory, or a '
@@ -299,6 +309,7 @@ def gen_history(rng, root, big=False):
         # edits are applied when the round is executed; options may refer to
         # directories that exist only then, so scope is validated at run time
     case['rounds'] = rounds
+    case['one_loader'] = rng.random() < 0.3
     return case
 
 
@@ -361,10 +372,21 @@ def apply_edit(root, ed):
 
 
 def run_history(ctx, root, case):
+    kept = []
+    first = None
     for rnd, r in enumerate(case['rounds']):
         for ed in r['edits']:
             apply_edit(root, ed)
         opt = dict(r['opt'])
+        if case.get('one_loader'):
+            # history on ONE loader object: the options given to its constructor in
+            # the first round stay in force, later rounds choose scope and force only
+            opt['api'] = 'lib'
+            if first is not None:
+                for k in ('hashes', 'sort', 'watermark', 'format'):
+                    opt[k] = first[k]
+            else:
+                first = opt
         if opt['scope'] and not os.path.isdir(os.path.join(root, opt['scope'])):
             opt['scope'] = ''
         if opt['api'] == 'cli' and not opt['create'] and \
@@ -380,7 +402,11 @@ def run_history(ctx, root, case):
                                     for a in ft.answers} != \
                     {os.path.realpath(os.path.join(root, 'Manifest'))}:
                 opt['api'] = 'lib'
-        if not judge_round(ctx, root, case, rnd, opt):
+        loader = kept[0] if (case.get('one_loader') and kept) else None
+        if loader is not None:
+            ctx.count('same_loader_rounds')
+        if not judge_round(ctx, root, case, rnd, opt, loader=loader,
+                           keep=kept if case.get('one_loader') else None):
             break
 
 
